@@ -38,7 +38,7 @@ add("C05", "exploration",
     IOVEC_NOTE + " The registry (hook H1) is trusted to see every chunk creation and release.", DST + "; sanitizer replay of the same plans in the thorough tier", "DESIGN.md 3.2, 3.5, 5/C05", "simw")
 add("C10", "exploration",
     "Every run of the iovec, codec and stream worlds ends by dropping all objects in a drawn order and compares ByteArena::num_live_chunks/bytes and the registry with the run's baseline; long streaming runs with full drains bound live arena bytes by 4 x max(1 MiB, largest allocation) per object while >= 64 MiB flow through.",
-    IOVEC_NOTE, DST, "DESIGN.md 5/C10", "simw")
+    IOVEC_NOTE + " The live-chunk counters are plain atomics updated from any thread; their behaviour under concurrent chunk creation/release is only examined in the thorough tier (plain threads under Miri's scheduler).", DST + "; Miri plain-threads observer for the counters in the thorough tier", "DESIGN.md 5/C10, 10.8", "simw")
 add("C17", "exploration",
     "Scripted readers over {deliver k, Interrupted, EOF, hard error kinds} up to 12 steps x counts x attempt limits x arena states, directly on ByteArena::read_n and through Encoder/Decoder read_n, encode_read, decode_read: result, number of reader calls and buffer length offered per call must equal a ten-line reference of the documented loop; failed reads leave the codec output unchanged (checked by the codec oracles).",
     IOVEC_NOTE, DST, "DESIGN.md 5/C17", "simw")
@@ -48,8 +48,8 @@ add("C13", "exploration",
     "Real AtomicBaseTime code on real threads under a simulator-owned scheduler (uniform, PCT, reader starvation, round robin, run-to-completion) with atomics' values served from a release/acquire view memory model that returns stale messages where the orderings allow it, and in sequentially consistent mode; the recorded history is judged: every snapshot is an accepted pair (unique bases), at least as recent as every update that happens-before its invocation, per-thread monotone; older updates ignored, newer accepted; no panic, no deadlock.",
     T_NOTE, DST + " (own thread scheduler + view-based weak memory model)", "DESIGN.md 3.3, 5/C13", "simw")
 add("C18", "fault_enumeration",
-    "Stall fault enumerated over every suspension point of one writer (each hook event of update/try_update, with and without the lock; run index modulo the step count) and sampled for two writers; after the stall a snapshot thread and a try_update thread run alone, one after the other: the snapshot must finish with exactly 4 atomic loads and no lock operation (sequentially consistent runs), try_update must finish without a blocking lock operation and return false when a stalled writer holds the lock; a blocked or over-long solo thread is reported by the deadlock/step-cap detector.",
-    T_NOTE + " get_base_time_unlocked is a one-line call of snapshot on the static instance; it is covered through snapshot (reading the code), not driven separately.", DST + " (stall-point enumeration)", "DESIGN.md 3.3, 5/C18", "simw")
+    "Stall fault enumerated over every suspension point of one writer (each hook event of update/try_update, with and without the lock, also after a contained caller-error panic that poisoned the lock; run index modulo the step count) and sampled for two writers; after the stall a snapshot thread and a try_update thread run alone, one after the other: the snapshot must finish with exactly 4 atomic loads and no lock operation (sequentially consistent runs), try_update must finish without a blocking lock operation and return false when a stalled writer holds the lock; a blocked or over-long solo thread is reported by the deadlock/step-cap detector. A quarter of the runs are ordinary concurrent runs in which readers are lapped several times (no lock operation, no spurious retry on any snapshot). The same enumeration runs on nfs_voucher's static cell (scanner stalled inside scan_base_time; get_base_time_unlocked and observe_file_time then run alone).",
+    T_NOTE + " World nfsthreads drives get_base_time_unlocked and observe_file_time on the static cell with a scanner stalled inside the blocking update (one OS process per history).", DST + " (stall-point enumeration)", "DESIGN.md 3.3, 5/C18", "simw")
 V_NOTE = ("Trusted: SimClock and SimFileServer (hooks H3b/H3c replace the wall clock, st_dev and ctime; real files are still opened, touched and stat'ed), the provider closure, the reference window predicate (i128). "
           "One OS process per history. The 100 ms Instant-based refresh throttle runs on the real clock; now=None entry points run on fresh threads so it is unset, and the oracle never depends on whether the policy chose to refresh. Bounded: <= 60 calls per history.")
 add("C14", "exploration",
@@ -57,4 +57,4 @@ add("C14", "exploration",
     V_NOTE, DST + " (simulated clock and time source; boundary-biased triples for the pure part)", "DESIGN.md 3.4, 5/C14", "simw")
 add("C19", "exploration",
     "Histories of add_trusted_path / observe_file_time / maybe_observe_file_time / scan_base_time / get_base_time / get_base_time_unlocked / should_refresh_base_time over files on trusted, untrusted and later-trusted devices with older, equal and newer change-times, files that move to another device, per-device clock skew, clock jumps, 'now' on both sides of the refresh threshold; after every call: base never decreases, changes only to the simulated change-time of a file on a trusted (or being-registered) device, untrusted observations return nothing, every returned pair passes the voucher check, nothing moves before the first trust.",
-    V_NOTE, DST + " (simulated clock and file server, one process per history)", "DESIGN.md 3.4, 5/C19", "simw")
+    V_NOTE + " Concurrent histories (overlapping observers and scanners) run in worlds T and nfsthreads under the thread scheduler; there the oracle is that committed base times are non-decreasing in commit order.", DST + " (simulated clock and file server, one process per history; thread scheduler for overlapping callers)", "DESIGN.md 3.4, 5/C19, 10.5", "simw")
